@@ -596,6 +596,10 @@ impl<'a, S: Storage> BTree<'a, S> {
             if key <= last_key {
                 return Ok(false);
             }
+        } else if hint_page != self.root_page {
+            // A rightmost leaf emptied by deletes says nothing about its key range: the key
+            // may sort below the parent's last separator and belong to an earlier leaf.
+            return Ok(false);
         }
 
         let value_len_size = varint_len(value.len() as u64);
@@ -809,6 +813,10 @@ impl<'a, S: Storage> BTree<'a, S> {
             if key <= last_key {
                 return Ok(false);
             }
+        } else if hint_page != self.root_page {
+            // A rightmost leaf emptied by deletes says nothing about its key range: the key
+            // may sort below the parent's last separator and belong to an earlier leaf.
+            return Ok(false);
         }
 
         let value_len_size = varint_len(value.len() as u64);
